@@ -173,8 +173,10 @@ def run_tlc(
             with open(os.path.join(wd, name), "w") as f:
                 f.write(text)
     meta = os.path.join(wd, "_meta")
-    cmd = ["java", "-XX:+UseParallelGC", f"-Xmx{heap}"]
-    cmd += [f"-D{p}" for p in jvm_props]
+    jtmp = os.path.join(wd, "_jtmp")          # TLC unpacks its standard modules into java.io.tmpdir and never cleans up
+    os.makedirs(jtmp, exist_ok=True)
+    cmd = ["java", "-XX:+UseParallelGC", f"-Xmx{heap}", f"-Djava.io.tmpdir={jtmp}"]
+    cmd += [f"-D{p}" for p in jvm_props if not p.startswith("java.io.tmpdir")]
     cmd += ["-cp", f"{JAR}:{DEPS}", "tlc2.TLC", "-config", cfg_file, "-metadir", meta, "-noGenerateSpecTE"]
     cmd += ["-workers", str(workers)]
     if not deadlock:
